@@ -351,15 +351,20 @@ class VizierServicer(vizier_service_pb2_grpc.VizierServiceServicer):
       ]
       while requested_trials and request.suggestion_count > len(output_trials):
         assigned_trial = requested_trials.pop()
-        assigned_trial.state = study_pb2.Trial.State.ACTIVE
-        assigned_trial.client_id = request.client_id
-        assigned_trial.start_time.CopyFrom(start_time)
-        try:
-          self.datastore.update_trial(assigned_trial)
-        except custom_errors.NotFoundError:
-          # The trial was deleted (DeleteTrial takes no lock) after it was
-          # listed: it is no longer in the pool.
-          continue
+        # Other RPCs read-modify-write trials under the study lock (e.g.
+        # UpdateMetadata): re-read the trial under it, so that the listed copy
+        # does not overwrite their update.
+        with self._study_name_to_lock[study_name]:
+          try:
+            assigned_trial = self.datastore.get_trial(assigned_trial.name)
+            assigned_trial.state = study_pb2.Trial.State.ACTIVE
+            assigned_trial.client_id = request.client_id
+            assigned_trial.start_time.CopyFrom(start_time)
+            self.datastore.update_trial(assigned_trial)
+          except custom_errors.NotFoundError:
+            # The trial was deleted (DeleteTrial takes no lock) after it was
+            # listed: it is no longer in the pool.
+            continue
         output_trials.append(assigned_trial)
 
       if len(output_trials) == request.suggestion_count:
